@@ -260,17 +260,28 @@ impl Prop for C07 {
             };
             lines.push(extra);
         }
-        let defects = if ch.chance(5, 6) {
+        let mut defects = if ch.chance(5, 6) {
             gen::inject_defects(&mut lines, ch, 3)
         } else {
             vec![]
         };
         let split = ch.chance(1, 4);
-        let files = if split {
+        let mut files = if split {
             gen::split_include(&lines, ch, 2)
         } else {
             vec![("main.s".to_string(), lines.clone())]
         };
+        // the same malformed line at the same place (first line) of two files
+        if files.len() >= 2 && ch.chance(1, 3) {
+            let d = gen::defect_line(ch);
+            if d.expect_error && !defects.iter().any(|(_, x)| x.text == d.text) {
+                let raw = Line::Raw(format!("    {}", d.text));
+                let k = 1 + ch.below(files.len() - 1);
+                files[0].1.insert(0, raw.clone());
+                files[k].1.insert(0, raw);
+                defects.push((0, d));
+            }
+        }
         // render each file in canonical style, one statement per line
         let mut out_files = vec![];
         let mut out_defects = vec![];
